@@ -114,12 +114,17 @@ class Outcome(object):
 
 
 def _expand_ifexp(conds, t):
-    """split a term on its top-level conditional expressions"""
+    """split a term on its top-level conditional expressions; the conditions are recorded the way the walker records the
+    tests of if statements (short-circuit alternatives, `not` as polarity), contradictory combinations are dropped"""
+    from .pysym import expand_cond, contradictory
     if t[0] == 'ifexp':
-        for r in _expand_ifexp(conds + [(t[1], True)], t[2]):
-            yield r
-        for r in _expand_ifexp(conds + [(t[1], False)], t[3]):
-            yield r
+        for pol, branch in ((True, t[2]), (False, t[3])):
+            for alt in expand_cond(t[1], pol):
+                cs = conds + [(a, p) for a, p in alt]
+                if contradictory(cs):
+                    continue
+                for r in _expand_ifexp(cs, branch):
+                    yield r
     else:
         yield conds, t
 
